@@ -87,10 +87,12 @@ Fixpoint pure (v : jv) : bool :=
   | _ => true
   end.
 
-(* the text codec: json.dumps(separators=(',', ':')) -> ascii bytes, json.loads *)
-Variables (dumps : jv -> B) (loads : B -> option jv).
-Definition serialize (v : jv) : B := dumps (hint_tree v).
-Definition deserialize (data : B) : option jv := option_map reverse_tree (loads data).
+(* the text codec: json.dumps(separators=(',', ':')) -> ascii bytes, json.loads.  [Text] is the type
+   of serialized objects (the repository uses byte strings again, Text = B) *)
+Context {Text : Type}.
+Variables (dumps : jv -> Text) (loads : Text -> option jv).
+Definition serialize (v : jv) : Text := dumps (hint_tree v).
+Definition deserialize (data : Text) : option jv := option_map reverse_tree (loads data).
 
 Definition field (k : string) (v : jv) : option jv := match v with JObj kv => lookup k kv | _ => None end.
 Definition field_bytes (k : string) (v : jv) : option B :=
